@@ -82,8 +82,46 @@ fn direct_part(rep: &Report, zz: &[(usize, usize); 64]) {
             n
         })
         .sum();
-    rep.add_transitions(n_direct);
-    rep.add_states(n_direct);
+    // call history: the dequantiser is a pure function of (quantizer, level); all ordered triples of
+    // calls over a boundary alphabet on one dedicated thread
+    let qs_h: [u8; 6] = [1, 2, 5, 16, 30, 31];
+    let ls_h: [i16; 9] = [1, -2, 12, 33, -50, 127, 528, -600, 1023];
+    let letters: Vec<(u8, i16)> = qs_h.iter().flat_map(|q| ls_h.iter().map(move |l| (*q, *l))).collect();
+    let n = letters.len();
+    let lr = &letters;
+    std::thread::scope(|sc| {
+        sc.spawn(move || {
+            crate::evidence::install_panic_hook();
+            for a in 0..n {
+                for b in 0..n {
+                    for c in 0..n {
+                        for (step, &k) in [a, b, c].iter().enumerate() {
+                            let (q, level) = lr[k];
+                            let blk = Block { intradc: None, tcoef: vec![TCoefficient { is_short: false, run: 3, level }] };
+                            let mut levels = [DecodedDctBlock::Zero];
+                            let r = catch(|| inverse_rle(&blk, &mut levels, (0, 0), 1, q));
+                            let m = matrix(&levels[0]);
+                            let (x, y) = zz[3];
+                            if r.is_err() || m[y][x] != dequant(level as i32, q) as f32 {
+                                rep.violation_lazy("C11/coefficient-depends-on-call-history", || {
+                                    (
+                                        format!("after dequantising {:?}, (q={q}, level={level}) reconstructs to {} instead of {}", [a, b, c][..step].iter().map(|i| lr[*i]).collect::<Vec<_>>(), m[y][x], dequant(level as i32, q)),
+                                        {
+                                            let calls: Vec<serde_json::Value> = [a, b, c][..=step].iter().map(|i| json!({"q": lr[*i].0, "level": lr[*i].1})).collect();
+                                            json!({"kind": "dequant-history", "calls": calls})
+                                        },
+                                    )
+                                });
+                            }
+                        }
+                    }
+                }
+            }
+        });
+    });
+    rep.add_transitions(3 * (n * n * n) as u64 + n_direct);
+    rep.add_states(n_direct + (n * n * n) as u64);
+    rep.extra("call_history_triples", json!(n * n * n));
     rep.extra("direct_dequantiser_calls", json!(n_direct));
 }
 
@@ -242,7 +280,7 @@ pub fn run(tier: Tier) -> Report {
     rep.extra("samples_compared", json!(g.samples));
     rep.extra("samples_accepted_inside_rounding_band", json!(g.ties));
     rep.set_rule(
-        "(a) every quantizer 1..31 x level +-1..1023 x zig-zag position 0..63 x {with, without INTRADC} through the hooked dequantiser, exact coefficient and position; (b) end to end: every quantizer x every level of every codable form (8-bit escape in H.263 and Sorenson v0, 7- and 11-bit escapes in Sorenson v1, short codes) in 16x16 intra pictures against the reference decoder; (c) all 256 INTRADC codes x 6 blocks; (d) 31 x 4 DQUANT updates x 2 versions against the picture coded with the clamped quantizer; non-trivial = end-to-end pictures",
+        "(a) every quantizer 1..31 x level +-1..1023 x zig-zag position 0..63 x {with, without INTRADC} through the hooked dequantiser, exact coefficient and position, plus all ordered triples of calls over a 54-letter (quantizer, level) alphabet on one thread (purity); (b) end to end: every quantizer x every level of every codable form (8-bit escape in H.263 and Sorenson v0, 7- and 11-bit escapes in Sorenson v1, short codes) in 16x16 intra pictures against the reference decoder; (c) all 256 INTRADC codes x 6 blocks; (d) 31 x 4 DQUANT updates x 2 versions against the picture coded with the clamped quantizer; non-trivial = end-to-end pictures",
     );
     rep.sample(json!({"direct": {"q": 31, "level": 1023, "position": 63, "expected": dequant(1023, 31)}}));
     rep.sample(json!({"end_to_end": "Sorenson v1 q=31, blocks carry 11-bit levels 529..534 at zig-zag position 8"}));
